@@ -124,17 +124,10 @@ impl GraphEngine {
             };
 
             for &v in u_neighbors {
-                // Only process each edge once: use degree ordering
-                let u_deg = degrees.get(&u).copied().unwrap_or(0);
-                let v_deg = degrees.get(&v).copied().unwrap_or(0);
-
+                // Only process each edge once, from its lower endpoint: every triangle
+                // u < v < w is then found exactly once, from its edge (u, v)
                 let edge_key = if u < v { (u, v) } else { (v, u) };
-                if counted_edges.contains(&edge_key) {
-                    continue;
-                }
-
-                // Process edge if u has lower degree (or same degree but lower ID)
-                if u_deg > v_deg || (u_deg == v_deg && u > v) {
+                if u > v || counted_edges.contains(&edge_key) {
                     continue;
                 }
 
